@@ -24,6 +24,8 @@ func init() {
 			{"C07-R1b", "who may write scope service lists", c07r1b},
 			{"C07-R2", "who may read exportTo", c07r2},
 			{"C07-R3", "DR selection and exclusion normalisation", c07r3},
+			{"C07-R4", "~ exclusions of both scopes precede every import", c07r4},
+			{"C07-R5", "an unset exportTo is resolved through the mesh default when the export index is built", c07r5},
 		},
 	})
 }
@@ -557,4 +559,182 @@ func c07r3(c *Ctx) {
 			"the current-namespace shorthand is resolved before the exclusion prefix is stripped: `~./host` is recorded under the literal namespace \".\" and excludes nothing")
 	}
 	c.Floor(5)
+}
+
+
+// C07-R4: a Sidecar egress host list can exclude hosts with a ~ prefix, scoped to a namespace or to the wildcard
+// namespace. In every function that consults exclusions (hostClassification.Excluded), every import it performs inside
+// the same loop lies behind the exclusions of BOTH scopes: for each scope, under the edge "no entry for that scope" or
+// the edge "not excluded by that scope".
+func c07r4(c *Ctx) {
+	p := c.P
+	excl := p.FuncObj(pkgModel, "hostClassification", "Excluded")
+	// origin of a value: the comma-ok map lookup it was extracted from (through cells of captured variables)
+	var origin func(v ssa.Value, depth int) (*ssa.Lookup, int)
+	origin = func(v ssa.Value, depth int) (*ssa.Lookup, int) {
+		if depth > 6 {
+			return nil, -1
+		}
+		switch x := v.(type) {
+		case *ssa.Extract:
+			if lk, ok := x.Tuple.(*ssa.Lookup); ok {
+				return lk, x.Index
+			}
+		case *ssa.UnOp:
+			if x.Op != token.MUL {
+				return nil, -1
+			}
+			var cell ssa.Value = x.X
+			if fv, ok := cell.(*ssa.FreeVar); ok {
+				fn := fv.Parent()
+				idx := -1
+				for i, f := range fn.FreeVars {
+					if f == fv {
+						idx = i
+					}
+				}
+				parent := fn.Parent()
+				cell = nil
+				if parent != nil && idx >= 0 {
+					eachInstr(parent, func(ins ssa.Instruction) {
+						if mk, ok := ins.(*ssa.MakeClosure); ok && mk.Fn == ssa.Value(fn) && idx < len(mk.Bindings) {
+							cell = mk.Bindings[idx]
+						}
+					})
+				}
+			}
+			if a, ok := cell.(*ssa.Alloc); ok {
+				for _, r := range *a.Referrers() {
+					if st, ok := r.(*ssa.Store); ok && st.Addr == ssa.Value(a) {
+						if lk, i := origin(st.Val, depth+1); lk != nil {
+							return lk, i
+						}
+					}
+				}
+			}
+		}
+		return nil, -1
+	}
+	isWildcard := func(lk *ssa.Lookup) bool {
+		s, ok := constString(lk.Index)
+		return ok && s == "*"
+	}
+	nFns := 0
+	for _, fn := range p.AllFuncs {
+		if funcPkgPath(fn) != istioMod+"/"+pkgModel || strings.HasSuffix(p.Fset.Position(fn.Pos()).Filename, "_test.go") {
+			continue
+		}
+		if fn.Synthetic != "" {
+			continue // pointer-receiver wrappers
+		}
+		calls := callsIn(fn, excl)
+		if len(calls) == 0 {
+			continue
+		}
+		nFns++
+		// cut sets per scope
+		cut := map[bool][]Edge{} // wildcard? -> edges
+		lookups := map[bool]*ssa.Lookup{}
+		for _, call := range calls {
+			cc := call.Common()
+			recv := cc.Args[0]
+			lk, idx := origin(recv, 0)
+			if lk == nil || idx != 0 {
+				c.Check("exclusion receiver resolved:"+stableFnName(fn), call.Pos(), false, "cannot tell which scope's exclusions are consulted here")
+				continue
+			}
+			w := isWildcard(lk)
+			lookups[w] = lk
+			for _, i := range allIfs(fn) {
+				cv, neg := stripNot(i.Cond)
+				if cv == call.Value() {
+					idx := 1
+					if neg {
+						idx = 0
+					}
+					cut[w] = append(cut[w], Edge{i.Block(), idx})
+				}
+			}
+		}
+		for w, lk := range lookups {
+			for _, i := range allIfs(fn) {
+				cv, neg := stripNot(i.Cond)
+				if l2, idx := origin(cv, 0); l2 != nil && idx == 1 && (l2 == lk || (isWildcard(l2) == w && sameValue(l2.X, lk.X) && sameValue(l2.Index, lk.Index))) {
+					e := 1
+					if neg {
+						e = 0
+					}
+					cut[w] = append(cut[w], Edge{i.Block(), e})
+				}
+			}
+		}
+		for _, w := range []bool{false, true} {
+			name := "namespace"
+			if w {
+				name = "wildcard"
+			}
+			c.Check("exclusions of the "+name+" scope consulted:"+stableFnName(fn), fn.Pos(), lookups[w] != nil,
+				"this function consults ~ exclusions, but not those of the "+name+" scope: a host excluded there is still imported")
+		}
+		// imports: appends inside a loop that contains an Excluded call
+		for _, l := range rangeLoops(fn) {
+			if l.Header == nil || l.Body == nil {
+				continue
+			}
+			// the loop's body in the source sense: everything its first block dominates (includes blocks that leave the
+			// function from inside the loop)
+			has := false
+			for _, call := range calls {
+				if l.Body.Dominates(call.Block()) {
+					has = true
+				}
+			}
+			if !has {
+				continue
+			}
+			for _, b := range fn.Blocks {
+				if !l.Body.Dominates(b) {
+					continue
+				}
+				for _, ins := range b.Instrs {
+					if !isAppendCall(ins) {
+						continue
+					}
+					for _, w := range []bool{false, true} {
+						if lookups[w] == nil {
+							continue
+						}
+						name := "namespace"
+						if w {
+							name = "wildcard"
+						}
+						c.Check("import behind the "+name+"-scope exclusions:"+stableFnName(fn), ins.Pos(), underEdges(fn, b, cut[w]),
+							"a service / virtual service is imported on a path that has not consulted the ~ exclusions of the "+name+" scope (e.g. hosts [\"ns/*\", \"~/secret.example.com\"]): the proxy receives clusters, endpoints and routes for a host its Sidecar excludes")
+					}
+				}
+			}
+		}
+	}
+	c.Check("functions consulting exclusions found", token.NoPos, nFns >= 2, "expected selectServices and SelectVirtualServices' helper")
+	c.Floor(8)
+}
+
+
+// C07-R5: for each kind, the code that builds the export index reads the mesh-wide default (exportToDefaults.<kind>):
+// an object without exportTo follows the mesh default, which may be private. If the index builder never looks at the
+// default, such objects are indexed as public whatever the mesh says.
+func c07r5(c *Ctx) {
+	p := c.P
+	for _, row := range []struct{ field, entry string }{
+		{"service", "initServiceRegistry"}, {"virtualService", "initVirtualServices"}, {"destinationRule", "setDestinationRules"},
+	} {
+		fv := p.Field(pkgModel, "exportToDefaults", row.field)
+		entry := p.Func(pkgModel, "PushContext", row.entry)
+		reach := p.CG().Reach([]*ssa.Function{entry}, func(f *ssa.Function) bool { return funcPkgPath(f) != istioMod+"/"+pkgModel })
+		eff := effectsOf(reach)
+		_, read := eff.Reads[fv]
+		c.Check("mesh default exportTo consulted when indexing: "+row.field, entry.Pos(), read,
+			row.entry+" (and what it calls in package model) never reads exportToDefaults."+row.field+": an object without exportTo is indexed without regard to the mesh default, so with a private default (\".\") it is handed to every namespace")
+	}
+	c.Floor(3)
 }
